@@ -155,6 +155,28 @@ class Abs:
                     x = self.ev(args[0])
                     return x if x and x[0] in ("seq", "empty") else None
                 return None
+            if name.endswith(".rfind") and 2 <= len(args) <= 3:
+                # the LAST occurrence: at or after the first one (K), by an amount the case does not determine
+                x = self.ev(args[0])
+                nd = self.ev(args[1])
+                if not x or x[0] not in ("seq", "empty") or not nd or nd[0] != "lin" or nd[1].const() is None:
+                    return None
+                if x[0] == "empty":
+                    return ("lin", Lin(-1))
+                frm = Lin(0)
+                if len(args) == 3:
+                    f = self.ev(args[2])
+                    if not f or f[0] != "lin":
+                        return None
+                    frm = f[1]
+                if x[1] + frm != self.P or x[2] != self.N or (self.needle is not None and nd[1].const() != self.needle):
+                    return None
+                self.finds.append((nd[1].const(), x[1] + frm, x[2]))
+                self.rfinds = getattr(self, "rfinds", 0) + 1
+                if self.case in ("A", "B"):
+                    return ("lin", Lin(-1))
+                self.rng["L"] = (0, INF)
+                return ("lin", self.K + sym("L") - x[1])
             if name.endswith(".find") and 2 <= len(args) <= 3:
                 x = self.ev(args[0])
                 nd = self.ev(args[1])
@@ -413,7 +435,7 @@ class BufSem:
                     base = base[1]
                 if base == ("f0", SELF, self.D):
                     continue  # the content after the call is taken from the final store, not from the effect list
-            if e[0] == "call" and isinstance(e[1], str) and e[1].endswith(".find"):
+            if e[0] == "call" and isinstance(e[1], str) and (e[1].endswith(".find") or e[1].endswith(".rfind")):
                 continue
             if e[0] in ("log", "try"):
                 continue
@@ -458,6 +480,9 @@ class BufSem:
                     return Verdict(False, f"{name} has an effect besides the buffer content and position", witness=str(extra[0][:3]), line=extra[0][-1] if isinstance(extra[0][-1], int) else fn.node.lineno)
                 d, q = self._final(p, A)
                 r = A.ev(p.ret) if p.ret is not None else ("none",)
+                if kind in ("pop-line", "trim-needle") and case in "CD" and getattr(A, "rfinds", 0):
+                    return Verdict(False, f"{name}: searches for the last {hex(needle) if needle is not None else 'needle'} instead of the first one: when a later one exists, everything between the two "
+                                   f"is skipped (when {self._case_text(case, needle)})", witness=f"content'={fmt(d)} position'={fmt(q)} returns {fmt(r)}", line=fn.node.lineno)
                 v = self._post(kind, case, A, d, q, r, needle, info)
                 if v is not True:
                     ok, why = v
@@ -579,6 +604,10 @@ class BufSem:
                     if res != "unknown":
                         break
                 if res == "unknown" and self.check(name, "clear").ok is True:
-                    res = "clear"
+                    # (a method that searches the content is not a plain clear, even though it empties the buffer when the search fails)
+                    fn_, _ = self.paths(name)
+                    searches = fn_ is not None and any(isinstance(n_, ast.Attribute) and n_.attr in ("find", "rfind", "index", "rindex", "partition", "split") for n_ in ast.walk(fn_.node))
+                    if not searches:
+                        res = "clear"
             self._kind[k] = res
         return self._kind[k]
